@@ -41,6 +41,7 @@ RULE = (
 )
 RULE += " " + 'Added after the seeding rounds: the same source kinds, version / number spellings and absent offsets as C11 (vf.gen_timing).'
 RULE += " " + 'Round 6: the same tiny pauses and near-equal tempo changes as C11.'
+RULE += " " + 'Round 7: as C11 (offsets beyond six decimals, a second engine built in between).'
 ASSUMPTIONS = [
     "exact rational model in vf/model_timing.py",
     "boundary times are only ever the engine's own time_at floats; distinct model event times are >= 6e-4 s apart in "
